@@ -88,7 +88,7 @@ def san_key(report):
     funcs = []
     for fm in _FRAME.finditer(report):
         fn, loc = fm.group(1), fm.group(2)
-        if '/repo/' in loc or '/verif/' in loc or '.work' in loc:
+        if '/repo/' in loc or (REPO.rstrip('/') + '/') in loc or '/verif/' in loc or '.work' in loc:
             if fn.startswith('__interceptor') or fn.startswith('__asan'):
                 continue
             funcs.append(fn)
